@@ -1,0 +1,434 @@
+//go:build verif
+
+// Verification hooks. Compiled only with the build tag "verif"; nothing in
+// the library calls into this file. It exposes read-only views of internal
+// state, synchronous entry points into the receive paths, a detached
+// scheduler and a deterministic clock for the external verification harness.
+package kcp
+
+import (
+	"encoding/binary"
+	"hash/fnv"
+	"net"
+	"sort"
+	"time"
+)
+
+// ---------------------------------------------------------------- clock
+
+// VerifSetClock makes currentMs() read ms at this instant.
+func VerifSetClock(ms uint32) {
+	refTime = time.Now().Add(-time.Duration(ms) * time.Millisecond)
+}
+
+// VerifNowMs returns the library's 32-bit millisecond clock.
+func VerifNowMs() uint32 { return currentMs() }
+
+// ---------------------------------------------------------------- scheduler
+
+// VerifTask is one function submitted to a detached scheduler.
+type VerifTask struct {
+	F  func()
+	At time.Time
+}
+
+// VerifNewDetachedSched builds a TimedSched without its goroutines: Put only
+// appends; the harness takes the tasks out with VerifTake and runs them.
+func VerifNewDetachedSched() *TimedSched {
+	ts := new(TimedSched)
+	ts.chTask = make(chan timedFunc)
+	ts.die = make(chan struct{})
+	ts.chPrependNotify = make(chan struct{}, 1)
+	return ts
+}
+
+// VerifTake removes and returns everything submitted so far.
+func (ts *TimedSched) VerifTake() []VerifTask {
+	ts.prependLock.Lock()
+	tasks := ts.prependTasks
+	ts.prependTasks = nil
+	ts.prependLock.Unlock()
+	select {
+	case <-ts.chPrependNotify:
+	default:
+	}
+	out := make([]VerifTask, len(tasks))
+	for i := range tasks {
+		out[i] = VerifTask{tasks[i].execute, tasks[i].ts}
+	}
+	return out
+}
+
+// ---------------------------------------------------------------- core
+
+// VerifKCPState is a plain copy of the protocol core's scalar state.
+type VerifKCPState struct {
+	Conv, Mtu, Mss, State               uint32
+	SndUna, SndNxt, RcvNxt              uint32
+	Ssthresh                            uint32
+	RxRttvar, RxSrtt                    int32
+	RxRto, RxMinrto                     uint32
+	SndWnd, RcvWnd, RmtWnd, Cwnd, Incr  uint32
+	Probe, TsProbe, ProbeWait           uint32
+	Interval, TsFlush, Nodelay, Updated uint32
+	DeadLink                            uint32
+	Fastresend, Nocwnd, Stream          int32
+	SndQueue, RcvQueue, SndBuf, RcvBuf  int
+	AckList                             int
+	SndBufSn, RcvBufSn, RcvQueueSn      []uint32
+	SndBufXmit                          []uint32
+	SndBufAcked                         []uint32
+	RcvQueueFrg                         []uint8
+}
+
+// VerifState copies the scalar state; with lists the sn lists as well.
+func (kcp *KCP) VerifState(lists bool) (st VerifKCPState) {
+	st.Conv, st.Mtu, st.Mss, st.State = kcp.conv, kcp.mtu, kcp.mss, kcp.state
+	st.SndUna, st.SndNxt, st.RcvNxt = kcp.snd_una, kcp.snd_nxt, kcp.rcv_nxt
+	st.Ssthresh = kcp.ssthresh
+	st.RxRttvar, st.RxSrtt = kcp.rx_rttvar, kcp.rx_srtt
+	st.RxRto, st.RxMinrto = kcp.rx_rto, kcp.rx_minrto
+	st.SndWnd, st.RcvWnd, st.RmtWnd, st.Cwnd, st.Incr = kcp.snd_wnd, kcp.rcv_wnd, kcp.rmt_wnd, kcp.cwnd, kcp.incr
+	st.Probe, st.TsProbe, st.ProbeWait = kcp.probe, kcp.ts_probe, kcp.probe_wait
+	st.Interval, st.TsFlush, st.Nodelay, st.Updated = kcp.interval, kcp.ts_flush, kcp.nodelay, kcp.updated
+	st.DeadLink = kcp.dead_link
+	st.Fastresend, st.Nocwnd, st.Stream = kcp.fastresend, kcp.nocwnd, kcp.stream
+	st.SndQueue, st.RcvQueue, st.SndBuf, st.RcvBuf = kcp.snd_queue.Len(), kcp.rcv_queue.Len(), kcp.snd_buf.Len(), kcp.rcv_buf.Len()
+	st.AckList = len(kcp.acklist)
+	if lists {
+		for seg := range kcp.snd_buf.ForEach {
+			st.SndBufSn = append(st.SndBufSn, seg.sn)
+			st.SndBufXmit = append(st.SndBufXmit, seg.xmit)
+			st.SndBufAcked = append(st.SndBufAcked, seg.acked)
+		}
+		for seg := range kcp.rcv_queue.ForEach {
+			st.RcvQueueSn = append(st.RcvQueueSn, seg.sn)
+			st.RcvQueueFrg = append(st.RcvQueueFrg, seg.frg)
+		}
+		for i := range kcp.rcv_buf.segments {
+			st.RcvBufSn = append(st.RcvBufSn, kcp.rcv_buf.segments[i].sn)
+		}
+	}
+	return
+}
+
+type verifHasher struct {
+	h   interface{ Write([]byte) (int, error) }
+	tmp [8]byte
+}
+
+func (v *verifHasher) u32(x uint32) {
+	binary.LittleEndian.PutUint32(v.tmp[:4], x)
+	v.h.Write(v.tmp[:4])
+}
+func (v *verifHasher) u64(x uint64) {
+	binary.LittleEndian.PutUint64(v.tmp[:8], x)
+	v.h.Write(v.tmp[:8])
+}
+func (v *verifHasher) bytes(b []byte) { v.u32(uint32(len(b))); v.h.Write(b) }
+func (v *verifHasher) seg(s *segment) {
+	v.u32(s.conv)
+	v.u32(uint32(s.cmd)<<8 | uint32(s.frg))
+	v.u32(uint32(s.wnd))
+	v.u32(s.ts)
+	v.u32(s.sn)
+	v.u32(s.una)
+	v.u32(s.rto)
+	v.u32(s.xmit)
+	v.u32(s.resendts)
+	v.u32(s.fastack)
+	v.u32(s.acked)
+	v.bytes(s.data)
+}
+
+func (kcp *KCP) verifDigestInto(v *verifHasher) {
+	for _, x := range []uint32{kcp.conv, kcp.mtu, kcp.mss, kcp.state, kcp.snd_una, kcp.snd_nxt, kcp.rcv_nxt,
+		kcp.ssthresh, uint32(kcp.rx_rttvar), uint32(kcp.rx_srtt), kcp.rx_rto, kcp.rx_minrto,
+		kcp.snd_wnd, kcp.rcv_wnd, kcp.rmt_wnd, kcp.cwnd, kcp.incr, kcp.probe, kcp.ts_probe, kcp.probe_wait,
+		kcp.interval, kcp.ts_flush, kcp.nodelay, kcp.updated, kcp.dead_link,
+		uint32(kcp.fastresend), uint32(kcp.nocwnd), uint32(kcp.stream)} {
+		v.u32(x)
+	}
+	v.u32(uint32(kcp.snd_queue.Len()))
+	for s := range kcp.snd_queue.ForEach {
+		v.seg(s)
+	}
+	v.u32(uint32(kcp.snd_buf.Len()))
+	for s := range kcp.snd_buf.ForEach {
+		v.seg(s)
+	}
+	v.u32(uint32(kcp.rcv_queue.Len()))
+	for s := range kcp.rcv_queue.ForEach {
+		v.seg(s)
+	}
+	v.u32(uint32(kcp.rcv_buf.Len()))
+	for i := range kcp.rcv_buf.segments {
+		v.seg(&kcp.rcv_buf.segments[i])
+	}
+	v.u32(uint32(len(kcp.acklist)))
+	for _, a := range kcp.acklist {
+		v.u32(a.sn)
+		v.u32(a.ts)
+	}
+}
+
+// VerifDigest hashes all protocol state of the core, queued payloads included.
+func (kcp *KCP) VerifDigest() uint64 {
+	h := fnv.New64a()
+	kcp.verifDigestInto(&verifHasher{h: h})
+	return h.Sum64()
+}
+
+// VerifFlush is the session-style drive: a full flush returning the interval.
+func (kcp *KCP) VerifFlush() uint32 { return kcp.flush(IKCP_FLUSH_FULL) }
+
+// VerifSetStream switches stream mode (the session sets the field directly).
+func (kcp *KCP) VerifSetStream(on bool) {
+	if on {
+		kcp.stream = 1
+	} else {
+		kcp.stream = 0
+	}
+}
+
+// VerifSetSeq puts a fresh core into the state of a connection that has
+// already carried snd outgoing and rcv incoming segments.
+func (kcp *KCP) VerifSetSeq(snd, rcv uint32) {
+	kcp.snd_una, kcp.snd_nxt, kcp.rcv_nxt = snd, snd, rcv
+}
+
+// ---------------------------------------------------------------- session / listener
+
+// VerifPacketInput enters the session's receive path synchronously.
+func (s *UDPSession) VerifPacketInput(b []byte) { s.packetInput(b) }
+
+// VerifPacketInput enters the listener's receive path synchronously.
+func (l *Listener) VerifPacketInput(b []byte, addr net.Addr) { l.packetInput(b, addr) }
+
+// VerifWithKCP runs f on the session's core under the session mutex.
+func (s *UDPSession) VerifWithKCP(f func(*KCP)) {
+	s.mu.Lock()
+	defer s.mu.Unlock()
+	f(s.kcp)
+}
+
+// VerifHeaderSize returns the bytes the session reserves in front of KCP data.
+func (s *UDPSession) VerifHeaderSize() int { return s.headerSize }
+
+// VerifPostQueueLen is the number of packets waiting for post-processing.
+func (s *UDPSession) VerifPostQueueLen() int { return len(s.chPostProcessing) }
+
+func (dec *fecDecoder) verifDigestInto(v *verifHasher) {
+	if dec == nil {
+		v.u32(0xdeadbeef)
+		return
+	}
+	v.u32(uint32(dec.dataShards))
+	v.u32(uint32(dec.parityShards))
+	v.u32(dec.paws)
+	v.u32(dec.newestShardId)
+	if dec.shouldTune {
+		v.u32(1)
+	} else {
+		v.u32(0)
+	}
+	ids := make([]uint32, 0, len(dec.shardSet))
+	for id := range dec.shardSet {
+		ids = append(ids, id)
+	}
+	sort.Slice(ids, func(i, j int) bool { return ids[i] < ids[j] })
+	for _, id := range ids {
+		v.u32(id)
+		sh := dec.shardSet[id]
+		v.u32(uint32(len(sh.elements)))
+		for _, e := range sh.elements {
+			v.bytes(e)
+		}
+	}
+	v.u32(uint32(dec.autoTune.head))
+	v.u32(uint32(dec.autoTune.tail))
+	v.u32(uint32(dec.autoTune.count))
+	for i := range dec.autoTune.pulses {
+		p := dec.autoTune.pulses[i]
+		if p.bit {
+			v.u32(1)
+		} else {
+			v.u32(0)
+		}
+		v.u32(p.seq)
+	}
+}
+
+// VerifDigest hashes the session's core, FEC decoder (shard sets, horizon,
+// auto-tune ring), FEC encoder position and read carry-over.
+func (s *UDPSession) VerifDigest() uint64 {
+	s.mu.Lock()
+	defer s.mu.Unlock()
+	h := fnv.New64a()
+	v := &verifHasher{h: h}
+	s.kcp.verifDigestInto(v)
+	v.bytes(s.bufptr)
+	s.fecDecoder.verifDigestInto(v)
+	if s.fecEncoder != nil {
+		v.u32(s.fecEncoder.next)
+		v.u32(uint32(s.fecEncoder.shardCount))
+		v.u32(uint32(s.fecEncoder.maxSize))
+	}
+	return h.Sum64()
+}
+
+// VerifSessions returns the listener's session table (address -> conv) and
+// the length of the accept backlog.
+func (l *Listener) VerifSessions() (map[string]uint32, int) {
+	l.sessionLock.RLock()
+	defer l.sessionLock.RUnlock()
+	m := make(map[string]uint32, len(l.sessions))
+	for k, s := range l.sessions {
+		m[k] = s.kcp.conv
+	}
+	return m, len(l.chAccepts)
+}
+
+// VerifSession returns the listener's session for addr, if any.
+func (l *Listener) VerifSession(addr string) *UDPSession {
+	l.sessionLock.RLock()
+	defer l.sessionLock.RUnlock()
+	return l.sessions[addr]
+}
+
+// VerifFECState describes a session's FEC codec state.
+type VerifFECState struct {
+	HasDecoder, HasEncoder bool
+	DecData, DecParity     int
+	ShouldTune             bool
+	ShardSets              int
+	ShardPackets           int
+	NewestShardId          uint32
+	EncNext, EncPaws       uint32
+	EncData, EncParity     int
+	EncShardCount          int
+}
+
+func (dec *fecDecoder) verifState(st *VerifFECState) {
+	if dec == nil {
+		return
+	}
+	st.HasDecoder = true
+	st.DecData, st.DecParity = dec.dataShards, dec.parityShards
+	st.ShouldTune = dec.shouldTune
+	st.ShardSets = len(dec.shardSet)
+	for _, sh := range dec.shardSet {
+		st.ShardPackets += len(sh.elements)
+	}
+	st.NewestShardId = dec.newestShardId
+}
+
+// VerifFEC reports the session's FEC state.
+func (s *UDPSession) VerifFEC() (st VerifFECState) {
+	s.mu.Lock()
+	defer s.mu.Unlock()
+	s.fecDecoder.verifState(&st)
+	if e := s.fecEncoder; e != nil {
+		st.HasEncoder = true
+		st.EncNext, st.EncPaws = e.next, e.paws
+		st.EncData, st.EncParity = e.dataShards, e.parityShards
+		st.EncShardCount = e.shardCount
+	}
+	return
+}
+
+// VerifSetFECNext positions the session's FEC encoder (group aligned values
+// only) and, with seekDecoder, the decoder horizon of the same session.
+func (s *UDPSession) VerifSetFECNext(next uint32) {
+	s.mu.Lock()
+	defer s.mu.Unlock()
+	if s.fecEncoder != nil {
+		s.fecEncoder.next = next % s.fecEncoder.paws
+	}
+}
+
+// VerifSeekFECDecoder sets the decoder horizon as after an uninterrupted run
+// up to seqid.
+func (s *UDPSession) VerifSeekFECDecoder(seqid uint32) {
+	s.mu.Lock()
+	defer s.mu.Unlock()
+	if s.fecDecoder != nil {
+		s.fecDecoder.newestShardId = s.fecDecoder.getShardId(seqid)
+	}
+}
+
+// ---------------------------------------------------------------- FEC codec, direct
+
+// VerifFECEncoder wraps the unexported encoder.
+type VerifFECEncoder struct{ e *fecEncoder }
+
+// VerifNewFECEncoder mirrors newFECEncoder; nil when the parameters are refused.
+func VerifNewFECEncoder(dataShards, parityShards, offset int) *VerifFECEncoder {
+	e := newFECEncoder(dataShards, parityShards, offset)
+	if e == nil {
+		return nil
+	}
+	return &VerifFECEncoder{e}
+}
+
+// Encode seals b (header space reserved by the caller) as the next data packet
+// and returns parity packets when the group is complete. Parity contents are
+// overwritten by later calls.
+func (w *VerifFECEncoder) Encode(b []byte, rto uint32) [][]byte { return w.e.encode(b, rto) }
+
+// EncodeOOB seals b as an out-of-band packet.
+func (w *VerifFECEncoder) EncodeOOB(b []byte) { w.e.encodeOOB(b) }
+
+// Next returns the next sequence id and the wrap value.
+func (w *VerifFECEncoder) Next() (next, paws uint32) { return w.e.next, w.e.paws }
+
+// SetNext positions the encoder.
+func (w *VerifFECEncoder) SetNext(n uint32) { w.e.next = n % w.e.paws }
+
+// VerifFECDecoder wraps the unexported decoder.
+type VerifFECDecoder struct{ d *fecDecoder }
+
+// VerifNewFECDecoder mirrors newFECDecoder; nil when the parameters are refused.
+func VerifNewFECDecoder(dataShards, parityShards int) *VerifFECDecoder {
+	d := newFECDecoder(dataShards, parityShards)
+	if d == nil {
+		return nil
+	}
+	return &VerifFECDecoder{d}
+}
+
+// Decode feeds one packet (seqid|type|payload).
+func (w *VerifFECDecoder) Decode(pkt []byte) [][]byte { return w.d.decode(fecPacket(pkt)) }
+
+// Release recycles buffers returned by Decode, as the session does.
+func (w *VerifFECDecoder) Release(bufs [][]byte) {
+	for _, b := range bufs {
+		defaultBufferPool.Put(b)
+	}
+}
+
+// State reports the decoder's parameters and occupancy.
+func (w *VerifFECDecoder) State() (st VerifFECState) { w.d.verifState(&st); return }
+
+// Seek sets the horizon as after an uninterrupted run up to seqid.
+func (w *VerifFECDecoder) Seek(seqid uint32) { w.d.newestShardId = w.d.getShardId(seqid) }
+
+// Digest hashes the whole decoder state.
+func (w *VerifFECDecoder) Digest() uint64 {
+	h := fnv.New64a()
+	w.d.verifDigestInto(&verifHasher{h: h})
+	return h.Sum64()
+}
+
+// ---------------------------------------------------------------- ring buffer
+
+// VerifLayout exposes head, tail and the raw slot array (not a copy).
+func (r *RingBuffer[T]) VerifLayout() (head, tail int, slots []T) {
+	return r.head, r.tail, r.elements
+}
+
+// ---------------------------------------------------------------- pool
+
+// VerifPoolGet / VerifPoolPut give the harness the library's buffer pool.
+func VerifPoolGet() []byte        { return defaultBufferPool.Get() }
+func VerifPoolPut(b []byte) error { return defaultBufferPool.Put(b) }
